@@ -14,9 +14,19 @@ dirs = [d for d in sorted(glob.glob(os.path.join(VERIF, 'seeded', '*')))
         if os.path.isdir(d) and os.path.exists(os.path.join(d, 'patch.diff'))]
 
 
+DONE = set()
+if os.environ.get('SEED_SKIP_LOG') and os.path.exists(os.environ['SEED_SKIP_LOG']):
+    # resume: seeds that already have a verdict line in an earlier log of this run are not evaluated again
+    import re
+    DONE = set(re.findall(r'^seed (\S+?):', open(os.environ['SEED_SKIP_LOG']).read(), flags=re.M))
+
+
 def one(d):
     sid = os.path.basename(d)
     meta = json.load(open(os.path.join(d, 'meta.json')))
+    if sid in DONE:
+        return (sid, meta.get('patch_applies'), meta.get('valid_seed'), ','.join(meta.get('detected_by', [])) or '-',
+                (list(meta.get('checks', {}).values())[0]['first_clauses'] or [''])[0][:90] if meta.get('checks') else '')
     checks = list(meta.get('checks', {})) or [sid.split('-')[0]]
     p = subprocess.run([sys.executable, os.path.join(VERIF, 'tools', 'seed_eval.py'), d, sid] + checks, capture_output=True, text=True)
     print(p.stdout.strip(), flush=True)
